@@ -7,6 +7,8 @@ Li2 == {"l1", "l2"}
 SV == {"a", "b"}
 EL == {"x", "y"}
 NoDev == {}
+NoDef0 == {}
+NoDefL1 == {"l1"}
 Known == {"c10_emptied_list_not_cleared", "c10_edits_during_save_lost"}
 DEmpt == {"c10_emptied_list_not_cleared"}
 DLost == {"c10_edits_during_save_lost"}
